@@ -23,6 +23,7 @@ def run_jobs(chk, mod, native, jobs, info, quick, SIGS, tag, explanation=None, t
             return (job, None, [], traceback.format_exc())
     # z3 python objects are not thread safe across contexts: run sequentially in-process, parallelise by forking worker processes
     results = parallel(jobs, one)
+    jobmap = {j[0]: j for j in jobs}
     for (name, signame, R, fe, err) in results:
         funcs.update(fe)
         if err:
@@ -38,7 +39,7 @@ def run_jobs(chk, mod, native, jobs, info, quick, SIGS, tag, explanation=None, t
         for inc in R['inconclusive']:
             chk.inconcl(name + '#' + inc['label'], inc['why'], queries=0)
         for v in R['viol']:
-            confirm(chk, native, name, signame, v, tag)
+            confirm(chk, native, name, signame, v, tag, jobmap.get(name))
         chk.extra['e3_paths'] = chk.extra.get('e3_paths', 0) + R['paths']
         chk.extra['e3_ir_instructions_executed'] = chk.extra.get('e3_ir_instructions_executed', 0) + R['instr']
     chk.functions += sorted(funcs)[:80]
@@ -53,13 +54,15 @@ def run_jobs(chk, mod, native, jobs, info, quick, SIGS, tag, explanation=None, t
         trusted=['clang-14 -O1 IR of the real sources (tested build uses g++-12)', 'irsym executor + region memory model (validated each run by concrete co-execution against an ASan native build)', 'z3 5.1.0 bit-vectors', 'oracles in the check script'] + list(trusted_extra))
 
 
-def confirm(chk, native, name, signame, v, tag):
+def confirm(chk, native, name, signame, v, tag, job=None):
     """replay a counterexample on the native ASan build of the same wrapper"""
     sig_ = '%s/%s#%s' % (tag, name, v['label'])
     if v.get('inputs') is None:
         chk.error('%s: violation without model (%s)' % (sig_, v['detail'][:200])); return
     res = native.run(signame, v['inputs'])
     kind = v['kind']
+    if kind == 'property' and job is not None and res['status'] == 'ok':
+        v = dict(v); v['recheck'] = lambda r, job=job, v=v: recheck_native(job, v, r)
     if kind == 'memory' and res['status'] in ('memory-error', 'crash'):
         chk.violation(sig_, '%s: %s; native ASan replay: %s' % (sig_, v['detail'], res['status']), {'inputs': v['inputs'], 'native': res['status'], 'stderr': res['stderr'][-400:]})
     elif kind == 'abort' and res['status'] == 'abort':
@@ -72,6 +75,41 @@ def confirm(chk, native, name, signame, v, tag):
             chk.violation(sig_, '%s: %s; native replay status %s' % (sig_, v['detail'], res['status']), {'inputs': v['inputs'], 'native': res['status']})
         else:
             chk.error('%s: counterexample (%s) did not reproduce natively: %s' % (sig_, kind, v['detail'][:200]))
+
+
+def recheck_native(job, v, res):
+    """re-evaluate the job's oracle on the outputs of the native run for the solver's input model: True = the property is violated natively too"""
+    name, signame, inputs, base, oracle, kw = job
+    try:
+        subst = []
+        for sp in _SIGS[signame].spec:
+            iv = inputs[sp[1]]; mv = v['inputs'].get(sp[1])
+            for (x, y) in (zip(iv, mv) if isinstance(iv, list) else [(iv, mv)]):
+                if irsym.is_sym(x) and z3.is_const(x):
+                    subst.append((x, z3.BitVecVal(y, x.size())))
+
+        def get(nm, k):
+            return res['outs'][nm][k]
+        spec = {sp[1]: sp for sp in _SIGS[signame].spec}
+        rv = res['ret'] & ((1 << 64) - 1) if res['ret'] is not None else 0
+        props = oracle(get, rv, None, None)
+        seen = False
+        for (lab, pr) in props:
+            if lab != v['label']:
+                continue
+            seen = True
+            if isinstance(pr, bool):
+                if not pr:
+                    return True
+                continue
+            val = z3.simplify(z3.substitute(pr, *subst)) if subst else z3.simplify(pr)
+            if z3.is_false(val):
+                return True
+            if not z3.is_true(val):
+                return True      # not decidable concretely: keep the solver's verdict
+        return not seen
+    except Exception:
+        return True
 
 
 def native_violates(v, res):
